@@ -48,12 +48,19 @@ def tasks(tier, seed):
     for L in (1, 2) if q else (1, 2, 3):
         for site in range(L):
             ts.append(dict(name=f'hermitian_L{L}_s{site}', kind='hermitian', L=L, site=site, d=2, Dmax=2, DW=2, cplx=True, cut=3))
+    # environment blocks with a bra different from the ket (independent bond profiles): <Y|H_loc X> = <chi[i<-Y]| H |psi[i<-X]>
+    for L in (2, 3):
+        for cplx in (False, True):
+            if cplx and L == 3 and q:
+                continue
+            for site in range(L):
+                ts.append(dict(name=f'mixed_L{L}_s{site}_{"c" if cplx else "r"}', kind='mixed', L=L, site=site, d=2, Dmax=2, DW=2, cplx=cplx, cut=4))
     ts.append(dict(name='steps_L2', kind='steps', L=2, d=2, Dmax=2, DW=2, cplx=True, cut=3))
     return ts
 
 
 def required_marks(tier):
-    return ['bra_ket_profiles_differ', 'complex_entries', 'local_one_site', 'local_two_site', 'local_zero_site', 'hermitian_mpo',
+    return ['bra_ket_profiles_differ', 'mixed_environment', 'complex_entries', 'local_one_site', 'local_two_site', 'local_zero_site', 'hermitian_mpo',
             'norm_sqrt_stub']
 
 
@@ -248,6 +255,35 @@ def path(eng, acc, task):
                         out.append(Mx[0, 0])
                     return out
                 pairs.append((lhs, braket(dense_bond(Cp), M, dense_bond(C))))
+            if not unchanged(snap):
+                fails.append('an argument was modified')
+        elif kind == 'mixed':
+            (psi, chi, H), used = build(eng, task, ['A', 'B', 'W'], ['mps', 'mps', 'mpo'])
+            if used[0] != used[1]:
+                eng.mark('bra_ket_profiles_differ')
+            eng.mark('mixed_environment')
+            inputs.update(psi=tn.mps_json(psi), chi=tn.mps_json(chi), H=tn.mps_json(H))
+            snap = snapshot(psi.A + chi.A + H.A)
+            i = task['site']
+            M = tn.dense_mat(H)
+            BL = np.array([[[1]]], dtype=object)
+            for k in range(i):
+                BL = OP.contraction_operator_step_left(psi.A[k], chi.A[k], H.A[k], BL)
+            BR = np.array([[[1]]], dtype=object)
+            for k in reversed(range(i + 1, L)):
+                BR = OP.contraction_operator_step_right(psi.A[k], chi.A[k], H.A[k], BR)
+            X = eng.sym_array('X', psi.A[i].shape, cplx=task['cplx']); Y = eng.sym_array('Y', chi.A[i].shape, cplx=task['cplx'])
+            inputs.update(X=X, Y=Y)
+            HX = OP.apply_local_hamiltonian(BL, BR, H.A[i], X)
+            if HX.shape != Y.shape:
+                fails.append(f'local operator maps to shape {HX.shape}, expected the bra tensor shape {Y.shape}')
+            else:
+                lhs = Sym()
+                for idx in np.ndindex(*Y.shape):
+                    lhs = lhs + cj(Y[idx]) * S(HX[idx])
+                AX = list(psi.A); AX[i] = X
+                AY = list(chi.A); AY[i] = Y
+                pairs.append((lhs, braket(DN.dense_mps(AY), M, DN.dense_mps(AX))))
             if not unchanged(snap):
                 fails.append('an argument was modified')
         elif kind == 'steps':
